@@ -998,6 +998,74 @@ func checkAuthorSplit(c *Ctx) {
 		}
 	}
 	c.Check(ok, "R4.7", "Entity.Commit:split-per-author", w.FnPos(fn), "a change of author id closes the pack", "staged operations of different authors are not split into separate packs")
+	// an operation taken off the staging list goes into the pack being built: after the pop, the append of that
+	// iteration has happened or cannot be avoided
+	{
+		var pops []*ssa.Store
+		var appends []*ssa.Call
+		for _, b := range fn.Blocks {
+			for _, ins := range b.Instrs {
+				if st, isSt := ins.(*ssa.Store); isSt {
+					if fa, isFA := st.Addr.(*ssa.FieldAddr); isFA && fieldName(fa) == "staging" {
+						if sl, isSl := st.Val.(*ssa.Slice); isSl && sl.Low != nil && enclosingLoopHeader(b) != nil {
+							pops = append(pops, st)
+						}
+					}
+				}
+				if cv, isCall := ins.(*ssa.Call); isCall {
+					if bi, isB := cv.Common().Value.(*ssa.Builtin); isB && bi.Name() == "append" && enclosingLoopHeader(b) != nil {
+						if _, fld, isF := loadOfField(cv.Common().Args[0]); !isF || fld != "ops" {
+							appends = append(appends, cv)
+						}
+					}
+				}
+			}
+		}
+		bad := ""
+		for _, pop := range pops {
+			c.Sites++
+			hdr := enclosingLoopHeader(pop.Block())
+			covered := false
+			inApp := map[*ssa.BasicBlock]bool{}
+			for _, ap := range appends {
+				if enclosingLoopHeader(ap.Block()) == hdr {
+					inApp[ap.Block()] = true
+					if instrDominates(ap, pop) {
+						covered = true
+					}
+					if ap.Block() == pop.Block() {
+						covered = true
+					}
+				}
+			}
+			if covered {
+				continue
+			}
+			// from the pop, can the iteration end (back to the header or out of the loop) without an append?
+			seen := map[*ssa.BasicBlock]bool{}
+			q := []*ssa.BasicBlock{}
+			for _, sb := range pop.Block().Succs {
+				q = append(q, sb)
+			}
+			for len(q) > 0 && bad == "" {
+				x := q[0]
+				q = q[1:]
+				if seen[x] {
+					continue
+				}
+				seen[x] = true
+				if inApp[x] {
+					continue
+				}
+				if x == hdr || !inLoop(x, hdr) {
+					bad = "after the operation was taken off the staging list at " + w.InstrPos(pop) + " the iteration can end without it having been put into the pack"
+					break
+				}
+				q = append(q, x.Succs...)
+			}
+		}
+		c.Check(len(pops) > 0 && bad == "", "R4.7", "Entity.Commit:popped-operation-is-packed", w.FnPos(fn), "every operation removed from the staging list is in the pack", bad+": when the author changes, the first operation of the next author is dropped — Commit reports success and the acknowledged operation is stored nowhere")
+	}
 }
 
 func sameInnerLoop(a, b *ssa.BasicBlock) bool {
